@@ -69,6 +69,30 @@ def traces(rng, n):
     for spec, c in classes.kit_classes():
         if classes.signature_typed(c):
             out.append([{"ev": "KitSignature", "name": c.__name__, "up": c.signature[0], "down": c.signature[1]}])
+    # the exception classes: documented ancestors, and every kind of instance the library raises can be printed
+    from moclo import errors
+    for name in sorted(dir(errors)):
+        c = getattr(errors, name)
+        if isinstance(c, type) and issubclass(c, BaseException) and c.__module__ == errors.__name__:
+            out.append([{"ev": "ErrorClass", "name": name, "mro": [k.__name__ for k in c.__mro__][1:]}])
+    from Bio.Seq import Seq
+    from moclo.record import CircularRecord
+    from moclo.kits import ytk
+    rec = CircularRecord(Seq("GGTCTCACCCTACGTACAACGAGAGACCTTTT"), id="p1")
+    ent = ytk.YTKPart1(rec)
+    samples = [("InvalidSequence(record)", lambda: errors.InvalidSequence(rec)), ("InvalidSequence(seq, details)", lambda: errors.InvalidSequence(rec.seq, details="d")),
+               ("InvalidSequence(entity)", lambda: errors.InvalidSequence(ent, details="vector is not suitable")), ("IllegalSite(seq)", lambda: errors.IllegalSite(rec.seq)),
+               ("DuplicateModules", lambda: errors.DuplicateModules(ent, ent, details="same start overhang: 'CCCT'")), ("DuplicateModules()", lambda: errors.DuplicateModules()),
+               ("MissingModule", lambda: errors.MissingModule(Seq("AACG"))), ("MissingModule(details)", lambda: errors.MissingModule("AACG", details="x")),
+               ("UnusedModules", lambda: errors.UnusedModules(ent)), ("UnusedModules(details)", lambda: errors.UnusedModules(ent, ent, details=3))]
+    for kind, mk in samples:
+        ok = True
+        try:
+            ex = mk()
+            ok = isinstance(str(ex), str) and isinstance(repr(ex), str)
+        except BaseException:  # noqa
+            ok = False
+        out.append([{"ev": "ErrorPrint", "kind": kind, "ok": ok}])
     return out
 
 
